@@ -357,6 +357,11 @@ theorem step_invA (c : Cfg) (s s' : State) (a : Act) (h : InvA c s) (hs : step c
     · split at hs
       · injection hs with hs; subst hs; exact invA_same h rfl rfl rfl
       · cases hs
+    · rename_i seen hpc
+      split at hs
+      · rename_i hg; injection hs with hs; subst hs
+        exact invA_move (s := s) h hg.1 (by rw [hpc]; rfl) rfl (by rw [hpc]; simp) (by simp) rfl rfl rfl
+      · cases hs
     · cases hs
   | popLocal w p =>
     simp only [step] at hs
@@ -788,6 +793,10 @@ theorem step_invB (c : Cfg) (hn : 0 < c.n) (s s' : State) (a : Act) (hA : InvA c
       split at hs
       · rename_i hg; injection hs with hs; subst hs
         exact invB_nonwaiting hg.1 (by show s.pc w ≠ _; rw [hpc]; simp)
+      · cases hs
+    · split at hs
+      · rename_i hg; injection hs with hs; subst hs
+        exact invB_nonwaiting hg.1 (by simp [setPc])
       · cases hs
     · cases hs
   | popLocal w p =>
@@ -1530,6 +1539,10 @@ theorem step_invC (c : Cfg) (hmut : c.mutAddOpen = false) (s s' : State) (a : Ac
       split at hs
       · rename_i hg; injection hs with hs; subst hs
         exact invC_cover_all hg.1 (fun k => covers_of_exec k (by show (s.pc w).isExec = true; rw [hpc]; rfl))
+      · cases hs
+    · split at hs
+      · rename_i hg; injection hs with hs; subst hs
+        exact invC_cover_all hg.1 (fun k => covers_polling_nil k (by simp [setPc]))
       · cases hs
     · cases hs
   | popLocal w p =>
@@ -2278,5 +2291,724 @@ theorem step_park_cases {c : Cfg} {s s' : State} {w tag : Nat} (hs : step c s (.
       exact ⟨hnl, hs.symm⟩
   · cases hs
 
+
+/-! ## local deques of parked / exited workers are empty (C16 no_work_lost) -/
+
+/-- the local deque of a worker is empty unless it runs a packet or polls without having seen it empty -/
+def bufOk (s : State) (x : Nat) : Prop :=
+  match s.pc x with
+  | .exec _ => True
+  | .polling seen => Cont.buf x ∈ seen → s.buf x = []
+  | _ => s.buf x = []
+
+def InvF (c : Cfg) (s : State) : Prop := ∀ x, x < c.n → bufOk s x
+
+theorem bufOk_of_eq {s s' : State} {x : Nat} (h : bufOk s x) (hpc : s'.pc x = s.pc x) (hb : s'.buf x = s.buf x) : bufOk s' x := by
+  unfold bufOk at *; rw [hpc, hb]; exact h
+
+theorem bufOk_exec {s : State} {x : Nat} (h : (s.pc x).isExec = true) : bufOk s x := by
+  unfold bufOk; cases hp : s.pc x <;> simp_all [PC.isExec]
+
+theorem bufOk_polling_nil {s : State} {x : Nat} (h : s.pc x = .polling []) : bufOk s x := by
+  unfold bufOk; rw [h]; intro hm; cases hm
+
+theorem invF_same {c : Cfg} {s s' : State} (h : InvF c s) (hpc : s'.pc = s.pc) (hb : s'.buf = s.buf) : InvF c s' :=
+  fun x hx => bufOk_of_eq (h x hx) (by rw [hpc]) (by rw [hb])
+
+/-- `pc` of one worker changes to a state in which `bufOk` is re-established by `hp`; buffers may only
+shrink (erase) or change for a running worker -/
+theorem invF_setPc {c : Cfg} {s s' : State} {w : Nat} {p : PC} (h : InvF c s) (hpc : s'.pc = (setPc s w p).pc)
+    (hb : ∀ x, x ≠ w → s'.buf x = s.buf x ∨ (s.buf x = [] ∧ s'.buf x = []) ∨ (s.pc x).isExec = true)
+    (hw : bufOk s' w) : InvF c s' := by
+  intro x hx
+  by_cases e : x = w
+  · subst e; exact hw
+  · have hpx : s'.pc x = s.pc x := by rw [hpc]; simp [setPc, e]
+    rcases hb x e with h1 | ⟨h1, h2⟩ | h1
+    · exact bufOk_of_eq (h x hx) hpx h1
+    · exact bufOk_of_eq (h x hx) hpx (by rw [h1, h2])
+    · exact bufOk_exec (by rw [hpx]; exact h1)
+
+theorem bufOk_waiting_of {s : State} {x : Nat} (h : bufOk s x) (hp : ∀ q, s.pc x ≠ .exec q) (hq : ∀ seen, s.pc x ≠ .polling seen) :
+    s.buf x = [] := by
+  unfold bufOk at h
+  cases hpc : s.pc x <;> rw [hpc] at h <;> first | exact h | exact absurd hpc (hp _) | exact absurd hpc (hq _)
+
+theorem invF_notifyAll {c : Cfg} {s : State} (h : InvF c s) : InvF c (notifyAll s) := by
+  intro x hx
+  have := h x hx
+  by_cases hw : s.pc x = .waiting
+  · have hb : s.buf x = [] := by unfold bufOk at this; rw [hw] at this; exact this
+    unfold bufOk
+    have : (notifyAll s).pc x = .woken := by simp [notifyAll, hw]
+    rw [this]; exact hb
+  · exact bufOk_of_eq this (by simp [notifyAll, hw]) rfl
+
+theorem invF_notifyOne {c : Cfg} {s s' : State} {x : Option Nat} (h : InvF c s) (hs : notifyOne c s x = some s') : InvF c s' := by
+  rcases notifyOne_cases hs with ⟨x0, _, hx0, hw, rfl⟩ | ⟨_, _, rfl⟩
+  · refine invF_setPc h rfl (fun x _ => Or.inl rfl) ?_
+    have := h x0 hx0
+    unfold bufOk at *
+    rw [hw] at this
+    simp only [setPc, if_true]; exact this
+  · exact h
+
+
+theorem bufOk_erase {s s' : State} {x : Nat} {p : Pkt} (h : bufOk s x) (hpc : s'.pc x = s.pc x)
+    (hb : s'.buf x = (s.buf x).erase p) : bufOk s' x := by
+  unfold bufOk at *
+  rw [hpc, hb]
+  cases hp : s.pc x <;> rw [hp] at h <;> simp only at h ⊢
+  · intro hm; rw [h hm]; rfl
+  all_goals (rw [h]; rfl)
+
+theorem bufOk_nonrunning {s' : State} {x : Nat} (hb : s'.buf x = []) : bufOk s' x := by
+  unfold bufOk
+  cases hp : s'.pc x <;> simp only <;> first | trivial | exact hb | (intro _; exact hb)
+
+theorem step_invF (c : Cfg) (s s' : State) (a : Act) (h : InvF c s) (hs : step c s a = some s') : InvF c s' := by
+  cases a with
+  | observeEmpty w k =>
+    simp only [step] at hs
+    split at hs
+    · rename_i seen hpc
+      split at hs
+      · rename_i hg; injection hs with hs; subst hs
+        refine invF_setPc h rfl (fun x _ => Or.inl rfl) ?_
+        have hw := h w hg.1
+        unfold bufOk at hw ⊢
+        rw [hpc] at hw
+        simp only [setPc, if_true]
+        intro hm
+        rcases List.mem_cons.mp hm with e | e
+        · subst e
+          have : looksEmpty s w (.buf w) = true := hg.2
+          simp only [looksEmpty] at this
+          exact List.isEmpty_iff.mp this
+        · exact hw e
+      · cases hs
+    · cases hs
+  | pollBucket w b p =>
+    simp only [step] at hs
+    split at hs
+    · split at hs
+      · injection hs with hs; subst hs
+        exact invF_setPc (s := s) h rfl (fun x _ => Or.inl rfl) (bufOk_exec (by simp [setPc, PC.isExec]))
+      · cases hs
+    · cases hs
+  | batchMove w b p =>
+    simp only [step] at hs
+    split at hs
+    · rename_i p0 hpc
+      split at hs
+      · injection hs with hs; subst hs
+        intro x hx
+        by_cases e : x = w
+        · subst e; exact bufOk_exec (by show (s.pc x).isExec = true; rw [hpc]; rfl)
+        · exact bufOk_of_eq (h x hx) rfl (by simp [setBuf, setBkt, e])
+      · cases hs
+    · split at hs
+      · injection hs with hs; subst hs
+        intro x hx
+        by_cases e : x = w
+        · subst e; exact bufOk_polling_nil (by simp [setPc])
+        · exact bufOk_of_eq (h x hx) (by simp [setPc, setBuf, setBkt, e]) (by simp [setPc, setBuf, setBkt, e])
+      · cases hs
+    · cases hs
+  | popLocal w p =>
+    simp only [step] at hs
+    split at hs
+    · split at hs
+      · injection hs with hs; subst hs
+        refine invF_setPc (s := s) h rfl (fun x hxw => Or.inl ?_) (bufOk_exec (by simp [setPc, PC.isExec]))
+        simp [setPc, setBuf, hxw]
+      · cases hs
+    · cases hs
+  | popDesig w p =>
+    simp only [step] at hs
+    split at hs
+    · split at hs
+      · injection hs with hs; subst hs
+        exact invF_setPc (s := s) h rfl (fun x _ => Or.inl rfl) (bufOk_exec (by simp [setPc, PC.isExec]))
+      · cases hs
+    · cases hs
+  | steal w v p =>
+    simp only [step] at hs
+    split at hs
+    · split at hs
+      · rename_i hg; injection hs with hs; subst hs
+        intro x hx
+        by_cases e : x = w
+        · subst e; exact bufOk_exec (by simp [setPc, PC.isExec])
+        · by_cases e2 : x = v
+          · subst e2
+            exact bufOk_erase (p := p) (h x hx) (by simp [setPc, setBuf, e]) (by simp [setPc, setBuf, removeP])
+          · exact bufOk_of_eq (h x hx) (by simp [setPc, setBuf, e]) (by simp [setPc, setBuf, e2])
+      · cases hs
+    · cases hs
+  | pollMiss w =>
+    simp only [step] at hs
+    split at hs
+    · rename_i seen hpc
+      split at hs
+      · rename_i hg; injection hs with hs; subst hs
+        refine invF_setPc h rfl (fun x _ => Or.inl rfl) ?_
+        have hw := h w hg.1
+        unfold bufOk at hw
+        rw [hpc] at hw
+        apply bufOk_nonrunning
+        show s.buf w = []
+        apply hw
+        have := (List.all_eq_true.mp hg.2) (.buf w) (mem_allConts_buf hg.1)
+        simpa using this
+      · cases hs
+    · cases hs
+  | push w b tag =>
+    simp only [step] at hs
+    split at hs
+    · injection hs with hs; subst hs; exact invF_same h rfl rfl
+    · cases hs
+  | pushLocal w b tag =>
+    simp only [step] at hs
+    split at hs
+    · rename_i hg; injection hs with hs; subst hs
+      intro x hx
+      by_cases e : x = w
+      · subst e; exact bufOk_exec (by show (s.pc x).isExec = true; exact hg.2.1)
+      · exact bufOk_of_eq (h x hx) rfl (by simp [setBuf, bump, e])
+    · cases hs
+  | pushDesig w x tag =>
+    simp only [step] at hs
+    split at hs
+    · injection hs with hs; subst hs; exact invF_same h rfl rfl
+    · cases hs
+  | setSentinel w b tag =>
+    simp only [step] at hs
+    split at hs
+    · injection hs with hs; subst hs; exact invF_same h rfl rfl
+    · cases hs
+  | bucketNotifyOne w b x =>
+    simp only [step] at hs
+    split at hs
+    · exact invF_notifyOne h hs
+    · cases hs
+  | bucketNotifyAll w b =>
+    simp only [step] at hs
+    split at hs
+    · injection hs with hs; subst hs; exact invF_notifyAll h
+    · cases hs
+  | setEnabled w b v =>
+    simp only [step] at hs
+    split at hs
+    · injection hs with hs; subst hs; exact invF_same h rfl rfl
+    · cases hs
+  | stopAll w =>
+    simp only [step] at hs
+    split at hs
+    · injection hs with hs; subst hs; exact invF_same h rfl rfl
+    · cases hs
+  | clearRequest w =>
+    simp only [step] at hs
+    split at hs
+    · injection hs with hs; subst hs; exact invF_same h rfl rfl
+    · cases hs
+  | openFirst w b =>
+    simp only [step] at hs
+    split at hs
+    · injection hs with hs; subst hs; exact invF_same h rfl rfl
+    · cases hs
+  | wakeAll w =>
+    simp only [step] at hs
+    split at hs
+    · injection hs with hs; subst hs; exact invF_notifyAll h
+    · cases hs
+  | execEnd w =>
+    simp only [step] at hs
+    split at hs
+    · split at hs
+      · injection hs with hs; subst hs
+        exact invF_setPc (s := s) h rfl (fun x _ => Or.inl rfl) (bufOk_polling_nil (by simp [setPc]))
+      · cases hs
+    · cases hs
+  | park w tag =>
+    simp only [step] at hs
+    split at hs
+    · rename_i hg
+      obtain ⟨hw, hpc, _⟩ := hg
+      have hbw : s.buf w = [] := by have := h w hw; unfold bufOk at this; rw [hpc] at this; exact this
+      split at hs
+      · split at hs
+        · cases hs
+        · rename_i s1 hl
+          have f := frame_onLastParked c _ _ _ _ hl
+          injection hs with hs; subst hs
+          have h1 : InvF c s1 := invF_same (s := s) h f.pc f.buf
+          exact invF_setPc h1 rfl (fun x _ => Or.inl rfl) (bufOk_nonrunning (by show s1.buf w = []; rw [f.buf]; exact hbw))
+        · rename_i s1 hl
+          have f := frame_onLastParked c _ _ _ _ hl
+          injection hs with hs; subst hs
+          have h1 : InvF c s1 := invF_same (s := s) h f.pc f.buf
+          obtain ⟨p, _, he⟩ := afterUnpark_pc { s1 with parked := s1.parked - 1 } w
+          rw [he]
+          exact invF_setPc (s := s1) h1 rfl (fun x _ => Or.inl rfl) (bufOk_nonrunning (by show s1.buf w = []; rw [f.buf]; exact hbw))
+        · rename_i s1 hl
+          have f := frame_onLastParked c _ _ _ _ hl
+          injection hs with hs; subst hs
+          have h1 : InvF c (notifyAll s1) := invF_notifyAll (invF_same (s := s) h f.pc f.buf)
+          obtain ⟨p, _, he⟩ := afterUnpark_pc { notifyAll s1 with parked := (notifyAll s1).parked - 1 } w
+          rw [he]
+          exact invF_setPc (s := notifyAll s1) h1 rfl (fun x _ => Or.inl rfl)
+            (bufOk_nonrunning (by show s1.buf w = []; rw [f.buf]; exact hbw))
+      · injection hs with hs; subst hs
+        exact invF_setPc (s := s) h rfl (fun x _ => Or.inl rfl) (bufOk_nonrunning hbw)
+    · cases hs
+  | spurious w =>
+    simp only [step] at hs
+    split at hs
+    · rename_i hg; injection hs with hs; subst hs
+      have hbw : s.buf w = [] := by have := h w hg.1; unfold bufOk at this; rw [hg.2] at this; exact this
+      exact invF_setPc h rfl (fun x _ => Or.inl rfl) (bufOk_nonrunning hbw)
+    · cases hs
+  | wake w =>
+    simp only [step] at hs
+    split at hs
+    · rename_i hg; injection hs with hs; subst hs
+      have hbw : s.buf w = [] := by have := h w hg.1; unfold bufOk at this; rw [hg.2.1] at this; exact this
+      obtain ⟨p, _, he⟩ := afterUnpark_pc { s with parked := s.parked - 1 } w
+      rw [he]
+      exact invF_setPc (s := s) h rfl (fun x _ => Or.inl rfl) (bufOk_nonrunning hbw)
+    · cases hs
+  | surrender w =>
+    simp only [step] at hs
+    split at hs
+    · split at hs
+      · rename_i hg
+        have hbw : s.buf w = [] := by have := h w hg.1; unfold bufOk at this; rw [hg.2] at this; exact this
+        split at hs
+        · injection hs with hs; subst hs
+          exact invF_setPc (s := s) h rfl (fun x _ => Or.inl rfl) (bufOk_nonrunning hbw)
+        · injection hs with hs; subst hs
+          exact invF_setPc (s := s) h rfl (fun x _ => Or.inl rfl) (bufOk_nonrunning hbw)
+      · cases hs
+    · cases hs
+  | requestFlag =>
+    simp only [step] at hs
+    split at hs <;> (injection hs with hs; subst hs)
+    · exact h
+    · exact invF_same h rfl rfl
+  | makeRequest g x =>
+    simp only [step] at hs
+    have hc : InvF c (consumePending s g) := by
+      unfold consumePending; split
+      · exact invF_same h rfl rfl
+      · exact h
+    split at hs
+    · cases hs
+    · split at hs
+      · split at hs
+        · injection hs with hs; subst hs; exact hc
+        · cases hs
+      · refine invF_notifyOne (s := setRequested (consumePending s g) g true) ?_ hs
+        cases g <;> exact invF_same hc rfl rfl
+  | mutPush b tag =>
+    simp only [step] at hs
+    split at hs
+    · injection hs with hs; subst hs; exact invF_same h rfl rfl
+    · cases hs
+  | mutNotifyOne b x =>
+    simp only [step] at hs
+    split at hs
+    · exact invF_notifyOne h hs
+    · cases hs
+  | initSetEnabled b v =>
+    simp only [step] at hs
+    split at hs
+    · injection hs with hs; subst hs; exact invF_same h rfl rfl
+    · cases hs
+  | prepareSurrender =>
+    simp only [step] at hs
+    split at hs
+    · injection hs with hs; subst hs; exact invF_same h rfl rfl
+    · cases hs
+  | respawn =>
+    simp only [step] at hs
+    split at hs
+    · split at hs
+      · injection hs with hs; subst hs
+        intro x hx
+        exact bufOk_polling_nil (by simp [hx])
+      · cases hs
+    · cases hs
+
+theorem init_invF (c : Cfg) : InvF c (init c) := fun x _ => bufOk_polling_nil rfl
+
+theorem reachable_invF {c : Cfg} {s : State} (h : Reachable c s) : InvF c s := by
+  obtain ⟨run, hr⟩ := h
+  exact exec_some_induct c (InvF c) (fun s s' a hh hs => step_invF c s s' a hh hs) run _ _ (init_invF c) hr
+
+
+/-! ## exit protocol (C16) -/
+
+/-- exit protocol: an exited worker exists only while an exit goal is current; once all structs are
+surrendered the goal is completed -/
+structure InvE (c : Cfg) (s : State) : Prop where
+  exited : ∀ x, x < c.n → s.pc x = .exited → ∃ g, s.current = some g ∧ g.isExit = true
+  done : s.creation = .surrendered c.n → s.current = none
+
+theorem notifyAll_exited (s : State) (x : Nat) : (notifyAll s).pc x = .exited → s.pc x = .exited := by
+  simp only [notifyAll]; split
+  · intro h; cases h
+  · exact id
+
+/-- actions that are not `park`, `wake`, `surrender`, `respawn`: no new exited worker, same goal,
+creation state unchanged or `Spawned → Surrendered(0)` -/
+theorem step_other_E (c : Cfg) (s s' : State) (a : Act) (hs : step c s a = some s') :
+    (∃ w tag, a = .park w tag) ∨ (∃ w, a = .wake w) ∨ (∃ w, a = .surrender w) ∨ a = .respawn ∨
+    (s'.current = s.current ∧ (s'.creation = s.creation ∨ s'.creation = .surrendered 0) ∧
+      ∀ x, s'.pc x = .exited → s.pc x = .exited) := by
+  cases a
+  case park w tag => exact Or.inl ⟨w, tag, rfl⟩
+  case wake w => exact Or.inr (Or.inl ⟨w, rfl⟩)
+  case surrender w => exact Or.inr (Or.inr (Or.inl ⟨w, rfl⟩))
+  case respawn => exact Or.inr (Or.inr (Or.inr (Or.inl rfl)))
+  case makeRequest g x =>
+    right; right; right; right
+    simp only [step] at hs
+    have hc : (consumePending s g).current = s.current ∧ (consumePending s g).creation = s.creation ∧ (consumePending s g).pc = s.pc := by
+      unfold consumePending; split <;> exact ⟨rfl, rfl, rfl⟩
+    split at hs
+    · cases hs
+    · split at hs
+      · split at hs
+        · injection hs with hs; subst hs; exact ⟨hc.1, Or.inl hc.2.1, fun x hx => by rw [← hc.2.2]; exact hx⟩
+        · cases hs
+      · rcases notifyOne_cases hs with ⟨x0, _, _, hw, rfl⟩ | ⟨_, _, rfl⟩
+        · cases g <;> refine ⟨hc.1, Or.inl hc.2.1, fun x hx => ?_⟩ <;>
+            (simp only [setPc, setRequested] at hx; split at hx
+             · cases hx
+             · rw [← hc.2.2]; exact hx)
+        · cases g <;> exact ⟨hc.1, Or.inl hc.2.1, fun x hx => by rw [← hc.2.2]; exact hx⟩
+  case bucketNotifyOne w b0 x =>
+    right; right; right; right
+    simp only [step] at hs
+    split at hs
+    · rcases notifyOne_cases hs with ⟨x0, _, _, hw, rfl⟩ | ⟨_, _, rfl⟩
+      · refine ⟨rfl, Or.inl rfl, fun x hx => ?_⟩
+        simp only [setPc] at hx; split at hx
+        · cases hx
+        · exact hx
+      · exact ⟨rfl, Or.inl rfl, fun x hx => hx⟩
+    · cases hs
+  case mutNotifyOne b0 x =>
+    right; right; right; right
+    simp only [step] at hs
+    split at hs
+    · rcases notifyOne_cases hs with ⟨x0, _, _, hw, rfl⟩ | ⟨_, _, rfl⟩
+      · refine ⟨rfl, Or.inl rfl, fun x hx => ?_⟩
+        simp only [setPc] at hx; split at hx
+        · cases hx
+        · exact hx
+      · exact ⟨rfl, Or.inl rfl, fun x hx => hx⟩
+    · cases hs
+  case prepareSurrender =>
+    right; right; right; right
+    simp only [step] at hs
+    split at hs
+    · injection hs with hs; subst hs; exact ⟨rfl, Or.inr rfl, fun x hx => hx⟩
+    · cases hs
+  all_goals
+    right; right; right; right
+    simp only [step] at hs
+    repeat' (split at hs)
+    all_goals first
+      | (injection hs with hs; subst hs
+         refine ⟨rfl, Or.inl rfl, fun x hx => ?_⟩
+         first
+          | exact hx
+          | exact notifyAll_exited _ _ hx
+          | (simp only [setPc, setBkt, setBuf, setDesig] at hx
+             first
+              | exact hx
+              | (split at hx
+                 · cases hx
+                 · exact hx)))
+      | cases hs
+
+
+theorem onLastParked_current_exit {c : Cfg} {s s' : State} {tag : Nat} {r : LPR} (h : onLastParked c s tag = some (s', r)) :
+    ¬ (∃ g, s.current = some g ∧ g.isExit = true) := by
+  intro ⟨g, hg, hx⟩
+  unfold onLastParked at h
+  split at h
+  · rename_i hc; rw [hc] at hg; cases hg
+  · rename_i hc; rw [hc] at hg; cases hg; cases hx
+  · cases h
+
+theorem afterUnpark_exited {s : State} {w : Nat} (h : (afterUnpark s w).pc w = .exited) :
+    ∃ g, s.current = some g ∧ g.isExit = true := by
+  unfold afterUnpark at h
+  split at h
+  · rename_i hc; exact ⟨_, hc, rfl⟩
+  · rename_i hc; exact ⟨_, hc, rfl⟩
+  · simp [setPc] at h
+
+theorem afterUnpark_pc_other {s : State} {w x : Nat} (hx : x ≠ w) : (afterUnpark s w).pc x = s.pc x := by
+  obtain ⟨p, _, he⟩ := afterUnpark_pc s w; rw [he]; simp [setPc, hx]
+theorem afterUnpark_current (s : State) (w : Nat) : (afterUnpark s w).current = s.current := by
+  obtain ⟨p, _, he⟩ := afterUnpark_pc s w; rw [he]; rfl
+theorem afterUnpark_creation (s : State) (w : Nat) : (afterUnpark s w).creation = s.creation := by
+  obtain ⟨p, _, he⟩ := afterUnpark_pc s w; rw [he]; rfl
+
+theorem no_parking_when_all_surrendered {c : Cfg} {s : State} (hA : InvA c s) (hcr : s.creation = .surrendered c.n)
+    (x : Nat) (hx : x < c.n) : s.pc x = .surrendered := by
+  have := countW_all c.n _ (hA.pool c.n hcr).symm x hx
+  simpa using this
+
+theorem step_invE (c : Cfg) (hn : 0 < c.n) (s s' : State) (a : Act) (hA : InvA c s) (h : InvE c s)
+    (hs : step c s a = some s') : InvE c s' := by
+  have hA' := step_invA c s s' a hA hs
+  rcases step_other_E c s s' a hs with ⟨w, tag, rfl⟩ | ⟨w, rfl⟩ | ⟨w, rfl⟩ | rfl | ⟨h1, h2, h3⟩
+  · -- park
+    simp only [step] at hs
+    split at hs
+    · rename_i hg
+      obtain ⟨hw, hpc, _⟩ := hg
+      have hnotall : s.creation ≠ .surrendered c.n := by
+        intro e; have := no_parking_when_all_surrendered hA e w hw; rw [hpc] at this; cases this
+      split at hs
+      · split at hs
+        · cases hs
+        · rename_i s1 hl
+          have f := frame_onLastParked c _ _ _ _ hl
+          have hne := onLastParked_current_exit hl
+          injection hs with hs; subst hs
+          constructor
+          · intro x hx hxe
+            simp only [setPc] at hxe
+            split at hxe
+            · cases hxe
+            · rw [f.pc] at hxe; exact absurd (h.exited x hx hxe) hne
+          · intro e; exact absurd (by rw [← f.creation]; exact e) hnotall
+        · rename_i s1 hl
+          have f := frame_onLastParked c _ _ _ _ hl
+          have hne := onLastParked_current_exit hl
+          injection hs with hs; subst hs
+          constructor
+          · intro x hx hxe
+            by_cases e : x = w
+            · subst e; rw [afterUnpark_current]; exact afterUnpark_exited hxe
+            · rw [afterUnpark_pc_other e] at hxe
+              have : s.pc x = .exited := by rw [← f.pc]; exact hxe
+              exact absurd (h.exited x hx this) hne
+          · intro e; rw [afterUnpark_creation] at e; exact absurd (by rw [← f.creation]; exact e) hnotall
+        · rename_i s1 hl
+          have f := frame_onLastParked c _ _ _ _ hl
+          have hne := onLastParked_current_exit hl
+          injection hs with hs; subst hs
+          constructor
+          · intro x hx hxe
+            by_cases e : x = w
+            · subst e; rw [afterUnpark_current]; exact afterUnpark_exited hxe
+            · rw [afterUnpark_pc_other e] at hxe
+              have : s.pc x = .exited := by rw [← f.pc]; exact notifyAll_exited s1 x hxe
+              exact absurd (h.exited x hx this) hne
+          · intro e; rw [afterUnpark_creation] at e; exact absurd (by rw [← f.creation]; exact e) hnotall
+      · injection hs with hs; subst hs
+        constructor
+        · intro x hx hxe
+          simp only [setPc] at hxe
+          split at hxe
+          · cases hxe
+          · exact h.exited x hx hxe
+        · intro e; exact absurd e hnotall
+    · cases hs
+  · -- wake
+    simp only [step] at hs
+    split at hs
+    · rename_i hg; injection hs with hs; subst hs
+      constructor
+      · intro x hx hxe
+        rw [afterUnpark_current]
+        by_cases e : x = w
+        · subst e; exact afterUnpark_exited hxe
+        · rw [afterUnpark_pc_other e] at hxe; exact h.exited x hx hxe
+      · intro e; rw [afterUnpark_creation] at e
+        have := no_parking_when_all_surrendered hA e w hg.1; rw [hg.2.1] at this; cases this
+    · cases hs
+  · -- surrender
+    simp only [step] at hs
+    split at hs
+    · rename_i k hcr
+      split at hs
+      · rename_i hg
+        split at hs
+        · rename_i hk; injection hs with hs; subst hs
+          constructor
+          · intro x hx hxe
+            -- all structs are in the pool now: nobody is `exited`
+            have := no_parking_when_all_surrendered hA' (by show Creation.surrendered (k + 1) = _; rw [hk]) x hx
+            rw [this] at hxe; cases hxe
+          · intro _; rfl
+        · rename_i hk; injection hs with hs; subst hs
+          constructor
+          · intro x hx hxe
+            simp only [setPc] at hxe
+            split at hxe
+            · cases hxe
+            · exact h.exited x hx hxe
+          · intro e; simp only [setPc] at e; injection e with e; exact absurd e hk
+      · cases hs
+    · cases hs
+  · -- respawn
+    simp only [step] at hs
+    split at hs
+    · rename_i k hcr
+      split at hs
+      · rename_i hk; injection hs with hs; subst hs
+        constructor
+        · intro x hx hxe; simp [hx] at hxe
+        · intro e; cases e
+      · cases hs
+    · cases hs
+  · constructor
+    · intro x hx hxe; rw [h1]; exact h.exited x hx (h3 x hxe)
+    · intro e
+      rw [h1]
+      rcases h2 with h2 | h2
+      · exact h.done (h2 ▸ e)
+      · rw [h2] at e; injection e with e; omega
+
+theorem init_invE (c : Cfg) : InvE c (init c) := ⟨fun x _ hx => by simp [init] at hx, fun e => by simp [init] at e⟩
+
+theorem reachable_invE {c : Cfg} (hn : 0 < c.n) {s : State} (h : Reachable c s) : InvA c s ∧ InvE c s := by
+  obtain ⟨run, hr⟩ := h
+  exact exec_some_induct c (fun s => InvA c s ∧ InvE c s)
+    (fun s s' a hh hs => ⟨step_invA c s s' a hh.1 hs, step_invE c hn s s' a hh.1 hh.2 hs⟩)
+    run _ _ ⟨init_invA c, init_invE c⟩ hr
+
+
+theorem notifyAll_exsu (s : State) (x : Nat) : ((notifyAll s).pc x = .exited ↔ s.pc x = .exited) ∧
+    ((notifyAll s).pc x = .surrendered ↔ s.pc x = .surrendered) := by
+  simp only [notifyAll]; split
+  · rename_i h; rw [h]; simp
+  · exact ⟨Iff.rfl, Iff.rfl⟩
+
+theorem setPc_exsu {s : State} {w : Nat} {p : PC} (x : Nat) (h1 : s.pc w ≠ .exited) (h2 : s.pc w ≠ .surrendered)
+    (h3 : p ≠ .exited) (h4 : p ≠ .surrendered) :
+    ((setPc s w p).pc x = .exited ↔ s.pc x = .exited) ∧ ((setPc s w p).pc x = .surrendered ↔ s.pc x = .surrendered) := by
+  simp only [setPc]; split
+  · rename_i e; subst e; simp [h1, h2, h3, h4]
+  · exact ⟨Iff.rfl, Iff.rfl⟩
+
+/-- actions other than `park`, `wake`, `surrender`, `respawn` neither create nor remove exited or
+surrendered workers -/
+theorem step_other_exsu (c : Cfg) (s s' : State) (a : Act) (hs : step c s a = some s') :
+    (∃ w tag, a = .park w tag) ∨ (∃ w, a = .wake w) ∨ (∃ w, a = .surrender w) ∨ a = .respawn ∨
+    ∀ x, (s'.pc x = .exited ↔ s.pc x = .exited) ∧ (s'.pc x = .surrendered ↔ s.pc x = .surrendered) := by
+  have hn1 : ∀ {s0 s1 : State} {x : Option Nat}, notifyOne c s0 x = some s1 →
+      ∀ y, (s1.pc y = .exited ↔ s0.pc y = .exited) ∧ (s1.pc y = .surrendered ↔ s0.pc y = .surrendered) := by
+    intro s0 s1 x h y
+    rcases notifyOne_cases h with ⟨x0, _, _, hw, rfl⟩ | ⟨_, _, rfl⟩
+    · exact setPc_exsu y (by rw [hw]; simp) (by rw [hw]; simp) (by simp) (by simp)
+    · exact ⟨Iff.rfl, Iff.rfl⟩
+  cases a
+  case park w tag => exact Or.inl ⟨w, tag, rfl⟩
+  case wake w => exact Or.inr (Or.inl ⟨w, rfl⟩)
+  case surrender w => exact Or.inr (Or.inr (Or.inl ⟨w, rfl⟩))
+  case respawn => exact Or.inr (Or.inr (Or.inr (Or.inl rfl)))
+  case makeRequest g x =>
+    right; right; right; right
+    simp only [step] at hs
+    have hc : (consumePending s g).pc = s.pc := by unfold consumePending; split <;> rfl
+    split at hs
+    · cases hs
+    · split at hs
+      · split at hs
+        · injection hs with hs; subst hs; intro y; rw [hc]; exact ⟨Iff.rfl, Iff.rfl⟩
+        · cases hs
+      · intro y
+        have := hn1 hs y
+        have e : (setRequested (consumePending s g) g true).pc = s.pc := by cases g <;> exact hc
+        rw [e] at this; exact this
+  case bucketNotifyOne w b0 x =>
+    right; right; right; right
+    simp only [step] at hs
+    split at hs
+    · exact hn1 hs
+    · cases hs
+  case mutNotifyOne b0 x =>
+    right; right; right; right
+    simp only [step] at hs
+    split at hs
+    · exact hn1 hs
+    · cases hs
+  all_goals
+    right; right; right; right
+    simp only [step] at hs
+    repeat' (split at hs)
+    all_goals first
+      | (injection hs with hs; subst hs
+         intro y
+         first
+          | exact ⟨Iff.rfl, Iff.rfl⟩
+          | exact notifyAll_exsu _ _
+          | (refine setPc_exsu y ?_ ?_ ?_ ?_ <;> simp_all [setBkt, setBuf, setDesig]))
+      | cases hs
+
+
+theorem respond_exitsDone {c : Cfg} {s s' : State} {tag : Nat} {r : LPR} (h : respond c s tag = some (s', r)) :
+    s'.exitsDone = s.exitsDone := by
+  unfold respond at h
+  split at h
+  · cases h
+  · split at h
+    · injection h with h; injection h with h1 _; subst h1; rfl
+    · split at h
+      · injection h with h; injection h with h1 _; subst h1; rfl
+      · split at h
+        · injection h with h; injection h with h1 _; subst h1; rfl
+        · injection h with h; injection h with h1 _; subst h1; rfl
+
+theorem onGcFinished_exitsDone {c : Cfg} {s s' : State} (h : onGcFinished c s = some s') : s'.exitsDone = s.exitsDone := by
+  unfold onGcFinished at h
+  split at h
+  · cases h
+  · split at h
+    · cases h
+    · split at h
+      · cases h
+      · rename_i s1 hc
+        injection h with h; subst h
+        have h1 := (sbb_closeLoop c _ _ _ hc).counters.2.2.2.2.2.2.2.2
+        have h2 := (sbb_schedConcurrent c s1).counters.2.2.2.2.2.2.2.2
+        show (schedConcurrent c s1).exitsDone = _
+        rw [h2, h1]; rfl
+
+theorem onLastParked_exitsDone {c : Cfg} {s s' : State} {tag : Nat} {r : LPR} (h : onLastParked c s tag = some (s', r)) :
+    s'.exitsDone = s.exitsDone := by
+  unfold onLastParked at h
+  split at h
+  · exact respond_exitsDone h
+  · split at h
+    · cases h
+    · split at h
+      · cases h
+      · split at h
+        · injection h with h; injection h with h1 _; subst h1; rfl
+        · split at h
+          · injection h with h; injection h with h1 _; subst h1
+            exact (sbb_schedSentinels c s).counters.2.2.2.2.2.2.2.2
+          · have e2 : (updateBuckets c (schedSentinels c s).1).1.exitsDone = s.exitsDone :=
+              ((sbb_updateBuckets c _).counters.2.2.2.2.2.2.2.2).trans (sbb_schedSentinels c s).counters.2.2.2.2.2.2.2.2
+            split at h
+            · injection h with h; injection h with h1 _; subst h1; exact e2
+            · split at h
+              · cases h
+              · rename_i s3 hg3
+                have e3 : s3.exitsDone = s.exitsDone := (onGcFinished_exitsDone hg3).trans e2
+                split at h
+                · injection h with h; injection h with h1 _; subst h1; exact e3
+                · rw [respond_exitsDone h]; exact e3
+  · cases h
 
 end Mmtk.Sched
